@@ -1,4 +1,343 @@
-import ArrModel.C10
+import ArrProofs.Lemmas.C10Basic
+import ArrProofs.Lemmas.C10Heap
+import ArrProofs.Lemmas.C10Tim
+import ArrProofs.Lemmas.C10Query
+/-!
+# C10 — all sort kinds give the same ordered rearrangement; order queries agree
+
+Property theorems only (helper lemmas: `ArrProofs/Lemmas/C10{Basic,Heap,Tim,Query}.lean`).
+Model under test: `ArrModel/C10.lean` — `merge_sort`, `quick_sort`, index-based `heap_sort`, run-merging `tim_sort`
+(as repaired by `fixes/C10-timsort-merge.diff`), the `SortKind` selector with its string spellings, `sort`, `argsort`,
+`argmax`, `argmin`, `unique`.
+
+All theorems are for **every lane of every length** over any element type whose comparison operators form a linear
+order (`Cmp.Lawful`; `Cmp.int_lawful` is the instance the tie runs on).  "Never panics" includes "the loop fuel of the
+model suffices" (running out of fuel is modelled as a panic).
+
+Scope: lane-level (flat, `axis = None`) forms and their rank-1 `axis = 0 / -1` forms.  The n-D `axis = k` forms go
+through `apply_along_axis` (`ArrModel.Axis`, owned by the lead); `sort`/`argsort`/`unique`/`argExtreme` take it as the
+parameter `along`, and the theorems below about the lane functions are exactly what that lifting needs.
+-/
 namespace ArrModel.C10
-theorem placeholder : True := trivial
+open ArrModel ArrModel.Sort
+
+variable {α : Type} {c : Cmp α}
+
+/-! ## the four algorithms -/
+
+/-- **uniqueness of the sorted rearrangement**: a lane has exactly one non-decreasing permutation -/
+theorem sorted_perm_unique (h : c.Lawful) {l₁ l₂ : List α} (h₁ : Sorted c l₁) (h₂ : Sorted c l₂) (p : l₁.Perm l₂) :
+    l₁ = l₂ := h.sorted_perm_unique h₁ h₂ p
+
+theorem merge_perm (xs : List α) : (mergeSort c xs).Perm xs := mergeSort_perm c xs
+theorem merge_sorted (h : c.Lawful) (xs : List α) : Sorted c (mergeSort c xs) := mergeSort_sorted h xs
+
+theorem quick_perm (xs : List α) : (quickSort c xs).Perm xs := quickSort_perm c xs
+theorem quick_sorted (h : c.Lawful) (xs : List α) : Sorted c (quickSort c xs) := quickSort_sorted h xs
+
+/-- `heap_sort` (index-based sift-down on the array): succeeds on every lane — no index ever leaves the array, the
+`loop` terminates — and returns a non-decreasing permutation -/
+theorem heap_spec (h : c.Lawful) (xs : List α) : ∃ s, heapSort c xs = .ok s ∧ s.Perm xs ∧ Sorted c s :=
+  heapSort_spec h xs
+
+theorem heap_no_panic (h : c.Lawful) (xs : List α) : heapSort c xs ≠ .panic := by
+  obtain ⟨s, hs, _⟩ := heapSort_spec h xs; rw [hs]; simp
+
+/-- `tim_sort` (repaired): succeeds on every lane **including the empty one and every length >= 32** (where runs
+are merged), and returns a non-decreasing permutation -/
+theorem tim_spec (h : c.Lawful) (xs : List α) : ∃ s, timSort c xs = .ok s ∧ s.Perm xs ∧ Sorted c s :=
+  timSort_spec h xs
+
+theorem tim_no_panic (h : c.Lawful) (xs : List α) : timSort c xs ≠ .panic := by
+  obtain ⟨s, hs, _⟩ := timSort_spec h xs; rw [hs]; simp
+
+/-- **all four selectable algorithms return the same lane**: the input's elements, each with its multiplicity, in
+non-decreasing order (= the standard stable sort of the lane) -/
+theorem sorts_agree (h : c.Lawful) (k : SortKind) (xs : List α) : sortFlat c k xs = .ok (xs.mergeSort c.le) := by
+  cases k
+  · exact congrArg Res.ok (h.eq_mergeSort_of_sorted_perm (quickSort_sorted h xs) (quickSort_perm c xs))
+  · exact congrArg Res.ok (h.eq_mergeSort_of_sorted_perm (mergeSort_sorted h xs) (mergeSort_perm c xs))
+  · obtain ⟨s, hs, hp, hsort⟩ := heapSort_spec h xs
+    show heapSort c xs = _
+    rw [hs, h.eq_mergeSort_of_sorted_perm hsort hp]
+  · obtain ⟨s, hs, hp, hsort⟩ := timSort_spec h xs
+    show timSort c xs = _
+    rw [hs, h.eq_mergeSort_of_sorted_perm hsort hp]
+
+/-- the common result is a permutation of the lane and non-decreasing -/
+theorem sort_result (h : c.Lawful) (k : SortKind) (xs : List α) :
+    ∃ s, sortFlat c k xs = .ok s ∧ s.Perm xs ∧ Sorted c s :=
+  ⟨_, sorts_agree h k xs, List.mergeSort_perm xs c.le, h.sorted_mergeSort xs⟩
+
+theorem sort_kinds_equal (h : c.Lawful) (k k' : SortKind) (xs : List α) : sortFlat c k xs = sortFlat c k' xs := by
+  rw [sorts_agree h k, sorts_agree h k']
+
+theorem sort_never_panics (h : c.Lawful) (k : SortKind) (xs : List α) : sortFlat c k xs ≠ .panic := by
+  rw [sorts_agree h k]; simp
+
+/-- **idempotence**: sorting a sorted lane (with any of the four kinds) returns it unchanged -/
+theorem sort_idem (h : c.Lawful) (k k' : SortKind) (xs s : List α) (hs : sortFlat c k xs = .ok s) :
+    sortFlat c k' s = .ok s := by
+  rw [sorts_agree h k] at hs
+  cases hs
+  rw [sorts_agree h k']
+  exact congrArg Res.ok (List.mergeSort_of_pairwise (h.sorted_mergeSort xs))
+
+/-! ## the selector: enum and string spellings -/
+
+/-- canonical (lower-case) name of a selector -/
+def kindName : SortKind → List Char
+  | .Quicksort => ['q','u','i','c','k','s','o','r','t']
+  | .Mergesort => ['m','e','r','g','e','s','o','r','t']
+  | .Heapsort => ['h','e','a','p','s','o','r','t']
+  | .Stable => ['s','t','a','b','l','e']
+
+/-- a string selects kind `k` exactly when its ASCII-lower-cased text is `k`'s name; every other text is refused
+with an error value -/
+theorem resolveKind_str (s : List Char) (k : SortKind) :
+    resolveKind (.str s) = .ok k ↔ lowerAscii s = kindName k := by
+  simp only [resolveKind, parseKindLower]
+  generalize lowerAscii s = t
+  constructor
+  · intro h
+    split at h
+    · cases h; assumption
+    · split at h
+      · cases h; assumption
+      · split at h
+        · cases h; assumption
+        · split at h
+          · cases h; assumption
+          · cases h
+  · intro h
+    subst h
+    cases k <;> simp [kindName]
+
+theorem resolveKind_unknown (s : List Char) (h : ∀ k, lowerAscii s ≠ kindName k) :
+    resolveKind (.str s) = .err .ParameterError := by
+  have h1 := h .Quicksort; have h2 := h .Mergesort; have h3 := h .Heapsort; have h4 := h .Stable
+  simp only [kindName] at h1 h2 h3 h4
+  simp only [resolveKind, parseKindLower, if_neg h1, if_neg h2, if_neg h3, if_neg h4]
+
+theorem resolveKind_never_panics (ka : KindArg) : resolveKind ka ≠ .panic := by
+  cases ka with
+  | none => simp [resolveKind]
+  | enum k => simp [resolveKind]
+  | str s =>
+    simp only [resolveKind, parseKindLower]
+    repeat' split
+    all_goals simp
+
+/-- every selector is reachable as enum value, by its lower-case name, and `None` means quicksort -/
+theorem resolveKind_enum (k : SortKind) : resolveKind (.enum k) = .ok k := rfl
+theorem resolveKind_name (k : SortKind) : resolveKind (.str (kindName k)) = .ok k := by
+  cases k <;> decide
+theorem resolveKind_default : resolveKind .none = .ok .Quicksort := rfl
+
+/-! ## `sort` (public operation) -/
+
+/-- flat form, any input shape, any accepted selector spelling: the 1-D array of the sorted elements -/
+theorem sort_flat (h : c.Lawful) (along : Along α α) (a : Arr α) (ka : KindArg) (k : SortKind)
+    (hk : resolveKind ka = .ok k) :
+    Sort.sort along c a none ka = .ok (Arr.flat (a.elems.mergeSort c.le)) := by
+  simp only [Sort.sort, hk, Res.bind_ok, sortLane, sorts_agree h k, Res.map]
+
+/-- rank-1 array with `axis = 0` or `-1` (through `apply_along_axis`): same result -/
+theorem sort_axis_1d (h : c.Lawful) (a : Arr α) (ha : a.ndim = 1) (ax : Int) (hax : ax = 0 ∨ ax = -1) (ka : KindArg)
+    (k : SortKind) (hk : resolveKind ka = .ok k) :
+    Sort.sort along1D c a (some ax) ka = .ok (Arr.flat (a.elems.mergeSort c.le)) := by
+  have hn : normAxis a.ndim ax = 0 := by rcases hax with rfl | rfl <;> simp [normAxis, ha]
+  simp only [Sort.sort, hk, Res.bind_ok, hn, along1D, sortLane, sorts_agree h k, Res.map]
+  simp [Arr.flat, ha]
+
+/-- an unknown selector name is an error value for `sort` and `argsort`, whatever the array and axis -/
+theorem sort_bad_kind (along : Along α α) (a : Arr α) (axis : Option Int) (ka : KindArg) (e : Err)
+    (hk : resolveKind ka = .err e) : Sort.sort along c a axis ka = .err e := by
+  simp only [Sort.sort, hk, Res.bind_err]
+
+theorem argsort_bad_kind (along : Along α Nat) (a : Arr α) (axis : Option Int) (ka : KindArg) (e : Err)
+    (hk : resolveKind ka = .err e) : Sort.argsort along c a axis ka = .err e := by
+  simp only [Sort.argsort, hk, Res.bind_err]
+
+/-- the result of the flat `sort` satisfies the shape/count invariant and is a fixed point of `sort` -/
+theorem sort_flat_idem (h : c.Lawful) (along : Along α α) (a : Arr α) (ka ka' : KindArg) (k k' : SortKind)
+    (hk : resolveKind ka = .ok k) (hk' : resolveKind ka' = .ok k') (r : Arr α)
+    (hr : Sort.sort along c a none ka = .ok r) : r.WF ∧ Sort.sort along c r none ka' = .ok r := by
+  rw [sort_flat h along a ka k hk] at hr
+  cases hr
+  refine ⟨by simp [Arr.WF, Arr.flat], ?_⟩
+  rw [sort_flat h along _ ka' k' hk']
+  simp only [Arr.flat, List.mergeSort_of_pairwise (h.sorted_mergeSort a.elems)]
+
+/-! ## `argsort` -/
+
+/-- **index form**: `argsort` succeeds (its two `unwrap`s and `Vec::remove` never fail) and assigns to every element
+the position it occupies in the sorted lane: the answer is a permutation of `0..n`, `sorted[r[i]] = xs[i]`, and equal
+elements receive increasing positions in order of appearance.  (These three facts determine `r` uniquely.) -/
+theorem argsort_spec (h : c.Lawful) (k : SortKind) (xs : List α) :
+    ∃ r, argsortFlat c k xs = .ok r ∧ r.Perm (List.range xs.length) ∧
+      (∀ (i : Nat) (x : α) (p : Nat), xs[i]? = some x → r[i]? = some p → (xs.mergeSort c.le)[p]? = some x) ∧
+      (∀ (i j : Nat) (x : α) (pi pj : Nat), i < j → xs[i]? = some x → xs[j]? = some x → r[i]? = some pi →
+        r[j]? = some pj → pi < pj) := by
+  unfold argsortFlat
+  rw [sorts_agree h k, Res.bind_ok]
+  have hfst := enumFrom_map_fst 0 (xs.mergeSort c.le)
+  have hsnd := enumFrom_map_snd 0 (xs.mergeSort c.le)
+  obtain ⟨out, ho, hperm, hpt, hst⟩ := argsortLoop_spec h xs (enumFrom 0 (xs.mergeSort c.le))
+    (by rw [hfst]; exact List.pairwise_lt_range')
+    (by rw [hsnd]; exact (List.mergeSort_perm xs c.le).symm)
+  refine ⟨out, ho, ?_, ?_, hst⟩
+  · rw [hfst, List.length_mergeSort] at hperm
+    rwa [List.range_eq_range']
+  · intro i x p hi hp
+    have := (mem_enumFrom 0 _ p x).1 (hpt i x p hi hp)
+    simpa using this.2
+
+theorem argsort_never_panics (h : c.Lawful) (k : SortKind) (xs : List α) : argsortFlat c k xs ≠ .panic := by
+  obtain ⟨r, hr, _⟩ := argsort_spec h k xs; rw [hr]; simp
+
+/-- the rank of an element does not depend on the algorithm selected -/
+theorem argsort_kinds_equal (h : c.Lawful) (k k' : SortKind) (xs : List α) :
+    argsortFlat c k xs = argsortFlat c k' xs := by
+  unfold argsortFlat; rw [sorts_agree h k, sorts_agree h k']
+
+/-! ## `argmax` / `argmin` -/
+
+/-- **argmax**: on a non-empty lane the answer is the first position of a largest element -/
+theorem argmax_spec (h : c.Lawful) (xs : List α) (hne : xs ≠ []) :
+    ∃ p m, argExtremePos c true xs = .ok p ∧ xs[p]? = some m ∧ (∀ y ∈ xs, c.le y m = true) ∧
+      (∀ q, q < p → xs[q]? ≠ some m) := by
+  unfold argExtremePos
+  have hnan : xs.findIdx? c.isNan = none := by
+    rw [List.findIdx?_eq_none_iff]; intro x _; exact h.not_nan x
+  have hq : resolveKind (.str ['q','u','i','c','k','s','o','r','t']) = .ok .Quicksort := by decide
+  rw [hnan]
+  simp only [hq, Res.bind_ok, sorts_agree h .Quicksort, ↓reduceIte]
+  have hlen : 0 < (xs.mergeSort c.le).length := by
+    rw [List.length_mergeSort]; exact List.length_pos_iff.2 hne
+  have hidx : (xs.mergeSort c.le).length - 1 < (xs.mergeSort c.le).length := by omega
+  rw [idx_ok _ _ hidx, Res.bind_ok]
+  have hmem : (xs.mergeSort c.le)[(xs.mergeSort c.le).length - 1] ∈ xs :=
+    List.mem_mergeSort.1 (List.getElem_mem hidx)
+  obtain ⟨p, hp, hpm, hfirst⟩ := findIdx_beq_spec h xs _ hmem
+  refine ⟨p, _, by rw [hp]; rfl, hpm, ?_, hfirst⟩
+  intro y hy
+  exact sorted_last_max h _ (h.sorted_mergeSort xs) _ (List.getElem?_eq_getElem hidx) y (List.mem_mergeSort.2 hy)
+
+/-- **argmin**: on a non-empty lane the answer is the first position of a smallest element -/
+theorem argmin_spec (h : c.Lawful) (xs : List α) (hne : xs ≠ []) :
+    ∃ p m, argExtremePos c false xs = .ok p ∧ xs[p]? = some m ∧ (∀ y ∈ xs, c.le m y = true) ∧
+      (∀ q, q < p → xs[q]? ≠ some m) := by
+  unfold argExtremePos
+  have hnan : xs.findIdx? c.isNan = none := by
+    rw [List.findIdx?_eq_none_iff]; intro x _; exact h.not_nan x
+  have hq : resolveKind (.str ['q','u','i','c','k','s','o','r','t']) = .ok .Quicksort := by decide
+  rw [hnan]
+  simp only [hq, Res.bind_ok, sorts_agree h .Quicksort, Bool.false_eq_true, ↓reduceIte]
+  have hlen : 0 < (xs.mergeSort c.le).length := by
+    rw [List.length_mergeSort]; exact List.length_pos_iff.2 hne
+  rw [idx_ok _ _ hlen, Res.bind_ok]
+  have hmem : (xs.mergeSort c.le)[0] ∈ xs := List.mem_mergeSort.1 (List.getElem_mem hlen)
+  obtain ⟨p, hp, hpm, hfirst⟩ := findIdx_beq_spec h xs _ hmem
+  refine ⟨p, _, by rw [hp]; rfl, hpm, ?_, hfirst⟩
+  intro y hy
+  exact sorted_first_min h _ (h.sorted_mergeSort xs) _ (List.getElem?_eq_getElem hlen) y (List.mem_mergeSort.2 hy)
+
+/-- the NaN arm (element types with NaN, no order law needed): the first NaN position wins, for both queries -/
+theorem argExtreme_nan (c : Cmp α) (isMax : Bool) (xs : List α) (i : Nat) (hi : xs.findIdx? c.isNan = some i) :
+    argExtremePos c isMax xs = .ok i := by
+  unfold argExtremePos; rw [hi]
+
+/-- public form, `axis = None`: one-element 1-D array holding that position; the empty array is refused with an
+error value; `keepdims` only changes the shape (`[1]`, `[1,1]`, `[1,1,1]`, error above rank 3) -/
+theorem argExtreme_flat (h : c.Lawful) (along : Along α Nat) (isMax : Bool) (a : Arr α) :
+    (a.elems = [] → Sort.argExtreme along c isMax a none none = .err .ParameterError) ∧
+    (a.elems ≠ [] → ∃ p, argExtremePos c isMax a.elems = .ok p ∧
+        Sort.argExtreme along c isMax a none none = .ok ⟨[p], [1]⟩ ∧
+        Sort.argExtreme along c isMax a none (some false) = .ok ⟨[p], [1]⟩ ∧
+        (a.ndim = 1 → Sort.argExtreme along c isMax a none (some true) = .ok ⟨[p], [1]⟩)) := by
+  constructor
+  · intro he
+    simp [Sort.argExtreme, argExtremeLane, Arr.isEmpty, he]
+  · intro hne
+    have hemp : a.isEmpty = false := by
+      simp only [Arr.isEmpty, beq_eq_false_iff_ne, ne_eq, List.length_eq_zero_iff]; exact hne
+    obtain ⟨p, hp⟩ : ∃ p, argExtremePos c isMax a.elems = .ok p := by
+      cases isMax
+      · obtain ⟨p, _, hp, _⟩ := argmin_spec h a.elems hne; exact ⟨p, hp⟩
+      · obtain ⟨p, _, hp, _⟩ := argmax_spec h a.elems hne; exact ⟨p, hp⟩
+    refine ⟨p, hp, ?_, ?_, ?_⟩
+    · simp [Sort.argExtreme, argExtremeLane, hemp, hp]
+    · simp [Sort.argExtreme, argExtremeLane, hemp, hp]
+    · intro h1
+      simp [Sort.argExtreme, argExtremeLane, hemp, hp, h1, atleastSingle]
+
+/-! ## `unique` -/
+
+/-- **distinct values**: strictly increasing, and exactly the members of the lane -/
+theorem unique_spec (h : c.Lawful) (xs : List α) :
+    (uniqueFlat c xs).Pairwise (fun a b => c.lt a b = true) ∧ (∀ y, y ∈ uniqueFlat c xs ↔ y ∈ xs) := by
+  obtain ⟨h1, h2⟩ := dedup_spec h (xs.mergeSort c.le) (h.sorted_mergeSort xs)
+  exact ⟨h1, fun y => (h2 y).trans List.mem_mergeSort⟩
+
+/-- `unique` = the sorted lane (by any of the four kinds) without repetitions -/
+theorem unique_eq_dedup_sort (h : c.Lawful) (k : SortKind) (xs : List α) :
+    sortFlat c k xs = .ok (xs.mergeSort c.le) ∧ uniqueFlat c xs = dedup c (xs.mergeSort c.le) :=
+  ⟨sorts_agree h k xs, rfl⟩
+
+theorem unique_flat (along : Along α α) (a : Arr α) :
+    Sort.unique along c a none = .ok (Arr.flat (uniqueFlat c a.elems)) := rfl
+
+/-! ## the pinned defect, as a theorem about the pinned statements -/
+
+/-- On every exit of `merge`'s loop (`i == len1 || j == len2`) with two non-empty runs, the **pinned** remainder
+copies `arr[k..k+len1] <- left_arr[i..]; arr[k+len1..k+len1+len2] <- right_arr[j..]` panic — whatever the array.
+`merge` is called for every lane of length >= 32, hence `SortKind::Stable` panics there on the pinned tree. -/
+theorem pinned_merge_tail_panics (L R a : List α) (i j k : Nat) (hL : L ≠ []) (hR : R ≠ [])
+    (hexit : i = L.length ∨ j = R.length) (hi : i ≤ L.length) (hj : j ≤ R.length) :
+    pinnedMergeTail L R L.length R.length a i j k = .panic := by
+  have hLl : 0 < L.length := List.length_pos_iff.2 hL
+  have hRl : 0 < R.length := List.length_pos_iff.2 hR
+  unfold pinnedMergeTail
+  simp only [sliceFrom, if_pos hi, if_pos hj, Res.bind_ok]
+  by_cases h1 : k ≤ k + L.length ∧ k + L.length ≤ a.length ∧ k + L.length - k = (L.drop i).length
+  · have hi0 : i = 0 := by
+      have := h1.2.2; rw [List.length_drop] at this; omega
+    have hjR : j = R.length := by omega
+    simp only [cloneFromSlice, if_pos h1, Res.bind_ok]
+    rw [if_neg]
+    intro h2
+    have := h2.2.2
+    rw [List.length_drop] at this
+    omega
+  · simp only [cloneFromSlice, if_neg h1, Res.bind_panic]
+
+/-! ## non-vacuity: the hypotheses are met, on lanes that exercise every loop -/
+
+/-- the tie's element type is a lawful order -/
+example : (Cmp.int).Lawful := Cmp.int_lawful
+
+/-- a 70-element lane (two runs of 35, one merge pass): all four kinds, by evaluation of the model -/
+def lane70 : List Int := (List.range 70).map (fun i => ((i * 37 + 11) % 23 : Nat))
+
+example : timSort Cmp.int lane70 = .ok (mergeSort Cmp.int lane70) := by decide +kernel
+example : heapSort Cmp.int lane70 = .ok (mergeSort Cmp.int lane70) := by decide +kernel
+example : quickSort Cmp.int lane70 = mergeSort Cmp.int lane70 := by decide +kernel
+example : (mergeSort Cmp.int lane70).take 8 = [0, 0, 0, 1, 1, 1, 2, 2] ∧ (mergeSort Cmp.int lane70).length = 70 := by
+  decide +kernel
+example : timSort Cmp.int ([] : List Int) = .ok [] := by decide
+example : argsortFlat Cmp.int .Stable [3, 1, 3, 1] = .ok [2, 0, 3, 1] := by decide +kernel
+example : argExtremePos Cmp.int true [3, 1, 3, 1] = .ok 0 ∧ argExtremePos Cmp.int false [3, 1, 3, 1] = .ok 1 := by
+  decide +kernel
+example : uniqueFlat Cmp.int [3, 1, 3, 1] = [1, 3] := by
+  have e : ([3, 1, 3, 1] : List Int).mergeSort Cmp.int.le = mergeSort Cmp.int [3, 1, 3, 1] :=
+    (Res.ok.inj ((sorts_agree Cmp.int_lawful .Mergesort [3, 1, 3, 1]).symm.trans rfl))
+  rw [uniqueFlat, e]; decide +kernel
+example : argExtremePos Cmp.f64 true [some 1, none, none] = .ok 1 := by decide +kernel
+example : resolveKind (.str ['Q','u','I','c','K','s','O','r','T']) = .ok .Quicksort := by decide
+example : resolveKind (.str ['S','T','A','B','L','E']) = .ok .Stable := by decide
+example : resolveKind (.str ['t','i','m','s','o','r','t']) = .err .ParameterError := by decide
+/-- the pinned copies on the first merge of a 32-element lane (runs of 16, loop exits with `i = 16`) -/
+example : pinnedMergeTail (List.range 16) (List.range 16) 16 16 (List.range 32) 16 0 16 = .panic := by decide +kernel
+
 end ArrModel.C10
